@@ -439,7 +439,7 @@ def cmd_manifest():
     for p in props:
         pid = p["id"]
         cfg = CHECKS.get(pid)
-        if cfg is None:
+        if cfg is None or not cfg.get("ready"):  # "ready": true is set once a check has been triaged on the unchanged tree
             na.append(dict(property_id=pid, reason=NOT_APPLICABLE.get(pid, NOT_YET)))
             continue
         checks.append(dict(
